@@ -30,6 +30,17 @@ Proof.
     now replace (j' + 1 - 1) with j' by lia.
 Qed.
 
+Lemma ref_up_nth : forall l rho k k' s,
+  AudioRef.ref_up l rho k = Ok (k', s) -> k <= k' /\ nthZ (k' - k) l = Some s.
+Proof.
+  induction l as [|x l IH]; intros rho k k' s H; cbn [AudioRef.ref_up] in H; [discriminate|].
+  destruct (en x >? rho).
+  - injection H as <- <-. rewrite Z.sub_diag. split; [lia|reflexivity].
+  - apply IH in H. destruct H as [H1 H2]. split; [lia|].
+    cbn [nthZ]. replace (k' - k <? 0) with false by lia. replace (k' - k =? 0) with false by lia.
+    now replace (k' - k - 1) with (k' - (k + 1)) by lia.
+Qed.
+
 Section TimeLookup.
 Variable vr : rep.
 Variable loopMS : Z.
@@ -112,11 +123,11 @@ Qed.
 Lemma audio_request_time_eq_number tab n now :
   0 <= n -> 0 <= startNr c -> startNr c + n < two32 ->
   F * r <= (E vr n - S vr n) * a ->
-  r < two64 -> f (S vr n) * r < two64 -> E vr n < two63 -> D < two64 ->
+  r < two64 -> f (S vr n) * r < two64 -> S vr n * a + F * r < two64 -> E vr n < two63 -> D < two64 ->
   AudioRef.audio_request vr loopMS c F a tab ByTime (f (S vr n)) now =
   AudioRef.audio_request vr loopMS c F a tab ByNumber (startNr c + n) now.
 Proof.
-  intros Hn Hs0 Hs32 Hlong Hr64 Ht64 HE63 HD64.
+  intros Hn Hs0 Hs32 Hlong Hr64 Ht64 Hsa HE63 HD64.
   pose proof (wf_ts _ _ W) as Hr.
   assert (HS0 : 0 <= S vr n) by (apply (S_nonneg vr loopMS n W Hn)).
   pose proof (S_lt_E vr loopMS W n Hn) as HSE.
@@ -125,13 +136,20 @@ Proof.
   rewrite (u64_small (f (S vr n))) by nia.
   rewrite (refMetaFromTime_spec n now Hn Hlong Hr64 Ht64 HE63 HD64) by (unfold two32, two64 in *; lia).
   rewrite (u32_id (startNr c + n)) by lia. rewrite (u32_id (startNr c)) by lia.
-  replace (startNr c + n <? startNr c) with false by lia.
+  replace ((startNr c + n >? maxu32) || (startNr c + n <? startNr c)) with false by (unfold maxu32, two32 in *; lia).
   rewrite (segMetaFromNr_spec vr loopMS W c n now Hn).
   unfold metaOf. rewrite (u64_small (S vr n)) by (unfold two63, two64 in *; lia).
   replace (n + startNr c) with (startNr c + n) by ring.
-  rewrite (u32_id (startNr c + n)) by lia. reflexivity.
+  rewrite (u32_id (startNr c + n)) by lia.
+  destruct (checkTime _ _ _ _ _); cbn [timed]; try reflexivity.
+  cbn [newNr newTime newDur]. rewrite (u64_small r) by lia.
+  destruct (Audio.calcAudioSegRecipe _ _ _ _ _ _ _) as [rc| |] eqn:R; try reflexivity.
+  rewrite (AudioProofs.recipe_start_of _ _ _ _ _ _ _ rc (f (S vr n))
+             (AudioProofs.calc_is_fb r F a Hr HF Ha (S vr n) HS0 Hsa) R).
+  rewrite Z.eqb_refl. reflexivity.
 Qed.
 
+(** for $Number$ addressing createAudioSegment is recipe + createAudioSeg *)
 (** The whole handler path for $Number$ addressing: availability as for the reference (video)
     segment [n] (C01/C04), and when available the segment of C03_frames with sequence number
     [startNr + n]. *)
@@ -152,7 +170,7 @@ Proof.
   pose proof (S_lt_E vr loopMS W n Hn) as HSE.
   unfold AudioRef.audio_request, AudioRef.refMeta, lookup.
   rewrite (u32_id (startNr c + n)) by lia. rewrite (u32_id (startNr c)) by lia.
-  replace (startNr c + n <? startNr c) with false by lia.
+  replace ((startNr c + n >? maxu32) || (startNr c + n <? startNr c)) with false by (unfold maxu32, two32 in *; lia).
   rewrite (segMetaFromNr_spec vr loopMS W c n now Hn).
   destruct (checkTime _ _ _ _ _); cbn [timed]; try reflexivity.
   unfold metaOf. cbn [newNr newTime newDur].
@@ -163,8 +181,91 @@ Proof.
   rewrite (u64_small (E vr n)) by lia.
   pose proof (repDuration_pos vr loopMS W).
   rewrite (u64_small D) by lia. rewrite (u64_small r) by lia.
-  rewrite (AudioProofs.ref_served_frames r F a Hr HF HF32 Ha vr loopMS W (startNr c + n) tab n Hpre).
-  reflexivity.
+  change (match Audio.calcAudioSegRecipe (startNr c + n) (S vr n) (E vr n) D r F a with
+          | Ok rc => if false && negb (Audio.r_start rc =? u64 (startNr c + n)) then TNotFound
+                     else AudioRef.lift (Audio.create_audio_seg F tab rc)
+          | Err e' => TErr e' | Panic p => TPanic p end)
+    with (match Audio.calcAudioSegRecipe (startNr c + n) (S vr n) (E vr n) D r F a with
+          | Ok rc => AudioRef.lift (Audio.create_audio_seg F tab rc)
+          | Err e' => TErr e' | Panic p => TPanic p end).
+  pose proof (AudioProofs.ref_served_frames r F a Hr HF HF32 Ha vr loopMS W (startNr c + n) tab n Hpre) as Hsf.
+  unfold Audio.audio_segment in Hsf.
+  destruct (Audio.calcAudioSegRecipe _ _ _ _ _ _ _) as [rc| |]; cbn [bind] in Hsf; try discriminate.
+  rewrite Hsf. reflexivity.
+Qed.
+
+(** A $Time$ request for a time that is not a multiple of the frame duration is 404 (since 33c7128). *)
+Lemma audio_request_time_off_grid tab t now :
+  0 <= t < two64 -> t mod F <> 0 ->
+  AudioRef.audio_request vr loopMS c F a tab ByTime t now = TNotFound.
+Proof.
+  intros Ht Hm. unfold AudioRef.audio_request, AudioRef.refMeta, AudioRef.refMetaFromTime.
+  rewrite (u64_small t) by lia. replace (F =? 0) with false by lia.
+  replace (t mod F =? 0) with false by lia. reflexivity.
+Qed.
+
+(** Only the times the audio timeline lists are served (since 33c7128): if a $Time$ request is answered
+    with a segment, the requested time is the frame boundary of the start of some reference segment.
+    (Any other time is 404 as soon as the reference segment that contains it is available.) *)
+Lemma audio_request_time_only_starts tab t now o :
+  0 <= t -> r < two64 -> (t * r + D) * a + F * r < two64 ->
+  AudioRef.audio_request vr loopMS c F a tab ByTime t now = TOk o ->
+  exists n, 0 <= n /\ t = f (S vr n).
+Proof.
+  intros Ht Hr64 Hrange H.
+  pose proof (wf_ts _ _ W) as Hr.
+  pose proof (repDuration_pos vr loopMS W) as HD.
+  pose proof (nsegs_pos vr loopMS W) as HN.
+  assert (Htr : 0 <= t * r) by nia.
+  assert (Hb1 : t * r + D < two64) by nia.
+  assert (Ht64 : t < two64) by nia.
+  unfold AudioRef.audio_request, AudioRef.refMeta, AudioRef.refMetaFromTime in H.
+  rewrite (u64_small t) in H by lia.
+  replace (F =? 0) with false in H by lia.
+  destruct (negb (t mod F =? 0)); [discriminate|].
+  rewrite (u64_small D) in H by lia. rewrite (u64_small r) in H by lia.
+  replace (a =? 0) with false in H by lia.
+  rewrite (u64_small (t * r)) in H by lia.
+  replace (D =? 0) with false in H by lia.
+  set (refTime := t * r / a) in *.
+  assert (HrT : 0 <= refTime <= t * r).
+  { unfold refTime. split; [apply Z.div_pos; lia|]. apply Z.div_le_upper_bound; nia. }
+  set (q := refTime / D) in *.
+  pose proof (Z.div_mod refTime D ltac:(lia)) as Edm. fold q in Edm.
+  pose proof (Z.mod_pos_bound refTime D HD) as Bm.
+  assert (Hq : 0 <= q) by (apply Z.div_pos; lia).
+  assert (HqD : 0 <= q * D <= refTime) by nia.
+  rewrite (u64_small (q * D)) in H by lia.
+  change (lenZ (segs vr)) with N in H.
+  set (rho := refTime - q * D) in *.
+  assert (Hrho : 0 <= rho < D) by (unfold rho; nia).
+  rewrite (u64_small rho) in H by lia.
+  rewrite (Z.div_small rho D) in H by lia.
+  cbn [Z.to_nat AudioRef.ref_down] in H.
+  pose proof (segAt_ok vr 0 ltac:(lia)) as H0. rewrite H0 in H. cbn [Z.eqb] in H. rewrite orb_true_r in H.
+  rewrite dropZ_0 in H.
+  destruct (AudioRef.ref_up (segs vr) rho 0) as [[j s]| |] eqn:Eup; try discriminate.
+  apply ref_up_nth in Eup. destruct Eup as [Hj0 Hnth]. rewrite Z.sub_0_r in Hnth.
+  pose proof (nthZ_some _ _ _ Hnth) as Hj. fold N in Hj.
+  pose proof (segAt_nth vr j s Hnth) as Es.
+  pose proof (st_nonneg vr loopMS W j Hj) as Hst. pose proof (en_le_dur vr loopMS W j Hj) as Hen.
+  pose proof (seg_pos vr loopMS W j Hj) as Hpos. rewrite Es in Hst, Hen, Hpos.
+  destruct (u64 (q * D + en s) =? 0); [discriminate|].
+  destruct (checkTime _ _ _ _ _); cbn [timed] in H; try discriminate.
+  cbn [newNr newTime newDur] in H.
+  rewrite (u64_small (q * D + st s)) in H by lia.
+  (* the reference segment found is segment q*N + j *)
+  assert (ES : S vr (q * N + j) = q * D + st s).
+  { unfold S. replace ((q * N + j) / N) with q by (apply (Z.div_unique _ _ q j); lia).
+    replace ((q * N + j) mod N) with j by (apply (Z.mod_unique _ _ q j); lia).
+    now rewrite Es. }
+  destruct (Audio.calcAudioSegRecipe _ _ _ _ _ _ _) as [rc| |] eqn:R; try discriminate.
+  assert (Hcalc : Audio.calcAudioTimeFromRef (q * D + st s) r F a = Ok (f (q * D + st s))).
+  { apply AudioProofs.calc_is_fb; try assumption; nia. }
+  rewrite (AudioProofs.recipe_start_of _ _ _ _ _ _ _ rc _ Hcalc R) in H.
+  cbn [andb] in H.
+  destruct (f (q * D + st s) =? t) eqn:Et; cbn [negb] in H; [|discriminate].
+  exists (q * N + j). split; [nia|]. rewrite ES. lia.
 Qed.
 
 End TimeLookup.
